@@ -46,7 +46,11 @@ def kf_rust_interval_fraction(fl):
 def kf_float_decomposition(fl):
     """either backend: parser.py adds the duration component by component, and Duration derives its components from float
     seconds - from 2**32 s (about 136 years) on, the microsecond component can be off by one (same defect as C10-float-paths)"""
-    return fl.get("kind") == "wrong" and fl.get("form") in ("start/duration", "duration/end") and fl.get("half_us") is True and fl.get("big_duration") is True
+    if not (fl.get("kind") == "wrong" and fl.get("form") in ("start/duration", "duration/end") and fl.get("big_duration") is True):
+        return False
+    # a double carries seconds with 53 bits: from 2**32 s on its grid is coarser than a microsecond (4 us at 1000 years); the
+    # decomposition error is a few grid steps
+    return fl.get("err_us", 10 ** 9) <= max(1, fl.get("duration_s", 0) * 2.0 ** -50 * 10 ** 6)
 
 
 def run(ctx):
